@@ -3,4 +3,5 @@ import OmplModel.Generated.SharedAccess
 #print axioms OmplModel.Generated.SharedAccess.surface_no_plain
 #print axioms OmplModel.Generated.SharedAccess.surface_counters_exact
 #print axioms OmplModel.Generated.SharedAccess.surface_adds_linearizable
+#print axioms OmplModel.Generated.SharedAccess.surface_add_clear_linearizable
 #print axioms OmplModel.Generated.SharedAccess.surface_seeds_distinct
